@@ -43,6 +43,8 @@ def scenarios(pid, thorough):
             S.append(dict(kind='recycle', quota=2, job='imapu', slow=True, items=8))
     if pid == 'C01':
         S.append(dict(kind='sendfail'))
+        # accepted, then its worker dies while the pool is being closed and joined: still resolves
+        S.append(dict(kind='loss', procs=1, job='apply', how=['signal', 9], closing=True))
     if pid == 'C10':
         S.append(dict(kind='sendfail'))
     if pid == 'C08':
